@@ -544,6 +544,39 @@ func (m *Machine) intercept(fn *ssa.Function, args []Val, caller *frame, site ss
 			}
 			return nil
 		}
+	case "sort.Slice", "sort.SliceStable":
+		// the real implementations swap through reflection; here: a stable
+		// insertion sort that calls the less closure (each symbolic answer
+		// is a solver-decided branch) and swaps the cells in place. The
+		// result is a sorted permutation; for elements the order does not
+		// separate it need not be the permutation pdqsort would produce.
+		return func() Val {
+			i0, ok := args[0].(Iface)
+			if !ok {
+				m.unmodelled("sort.Slice on a non-slice")
+			}
+			s, ok := i0.V.(SliceV)
+			if !ok {
+				m.unmodelled("sort.Slice on a non-slice")
+			}
+			if s.Len > 400 {
+				m.unmodelled("sort.Slice on more than 400 elements")
+			}
+			less := args[1]
+			for i := 1; i < s.Len; i++ {
+				for j := i; j > 0; j-- {
+					r := m.callValue(less, []Val{BV(64, uint64(j)), BV(64, uint64(j-1))}, caller, nil).(*Term)
+					if !m.branch(r, "sort.Slice comparison") {
+						break
+					}
+					a, b := s.A.E[s.Off+j], s.A.E[s.Off+j-1]
+					av, bv := copyVal(a.V, nil), copyVal(b.V, nil)
+					m.storeCell(a, bv, "sort.Slice")
+					m.storeCell(b, av, "sort.Slice")
+				}
+			}
+			return nil
+		}
 	case "sort.Ints":
 		return func() Val {
 			s := args[0].(SliceV)
